@@ -973,5 +973,265 @@ theorem struct_inserted {t T : Tree} {par : Nat} {pw : Win} {rect : Rect} {hid s
     · simp [newWin] at hr
     · rw [hr2]; exact hpos x w0 hw0 (by rw [← hr1]; exact hr)
 
+/-! ### the store with one dead slot appended (same size as after `tickit_window_new`) -/
+
+def padded (t : Tree) : Tree := { t with wins := t.wins.push { freed := true } }
+
+theorem padded_lookup (t : Tree) (i : Nat) :
+    (padded t).wins[i]? = if i = t.wins.size then some { freed := true } else t.wins[i]? := push_lookup t _ i
+
+theorem padded_size (t : Tree) : (padded t).wins.size = t.wins.size + 1 := by simp [padded]
+
+/-- The dead slot changes nothing for the composition, whatever (sufficient) fuel is used. -/
+theorem ownerLoc_padded {t : Tree} (h : wfB t = true) : ∀ (k k' x : Nat) (l c : Int),
+    t.wins.size < k + x → t.wins.size < k' + x → ownerLoc (padded t) k x l c = ownerLoc t k' x l c := by
+  intro k
+  induction k with
+  | zero =>
+    intro k' x l c h1 _
+    have hx : t.wins[x]? = none := by simp; omega
+    cases k' with
+    | zero => rfl
+    | succ k' => rw [ownerLoc, ownerLoc, hx]
+  | succ k ih =>
+    intro k' x l c h1 h2
+    rw [ownerLoc, padded_lookup]
+    by_cases hxs : x = t.wins.size
+    · subst hxs
+      have hx : t.wins[t.wins.size]? = none := by simp
+      cases k' with
+      | zero => simp [ownerLoc]
+      | succ k' => rw [ownerLoc, hx]; simp
+    · simp only [hxs, if_false]
+      cases k' with
+      | zero =>
+        have hx : t.wins[x]? = none := by simp; omega
+        rw [hx]; rfl
+      | succ k' =>
+        rw [ownerLoc]
+        cases hw : t.wins[x]? with
+        | none => rfl
+        | some w =>
+          simp only []
+          by_cases h1' : (!w.isVisible || w.freed) = true
+          · simp [h1']
+          · simp only [h1', Bool.false_eq_true, if_false]
+            by_cases h2' : (!w.rect.memb l c) = true
+            · simp [h2']
+            · simp only [h2', Bool.false_eq_true, if_false]
+              have hfree : w.freed = false := by
+                cases hf : w.freed with
+                | false => rfl
+                | true => simp [hf] at h1'
+              have : w.children.findSome? (fun ch => ownerLoc (padded t) k ch (l - w.rect.top) (c - w.rect.left)) =
+                     w.children.findSome? (fun ch => ownerLoc t k' ch (l - w.rect.top) (c - w.rect.left)) := by
+                apply findSome_congr
+                intro ch hch
+                obtain ⟨cw, hcw, hcp⟩ := wf_child h ⟨hw, hfree⟩ hch
+                have := (wf_parent h hcw hcp).1
+                exact ih k' ch _ _ (by omega) (by omega)
+              rw [this]
+
+theorem ownerAt_padded {t : Tree} (h : wfB t = true) (L C : Int) : ownerAt (padded t) L C = ownerAt t L C := by
+  unfold ownerAt
+  exact ownerLoc_padded h _ _ 0 L C (by rw [padded_size]; omega) (by omega)
+
+theorem chainEnd_padded {t : Tree} (h : wfB t = true) : ∀ (f f' x : Nat) (w : Win), Live t x w →
+    t.wins.size < f + x → t.wins.size < f' + x → chainEnd (padded t) f x = chainEnd t f' x := by
+  intro f
+  induction f with
+  | zero => intro f' x w hw h1 _; have := live_lt hw; omega
+  | succ f ih =>
+    intro f' x w hw h1 h2
+    have hxs : x ≠ t.wins.size := Nat.ne_of_lt (live_lt hw)
+    cases f' with
+    | zero => have := live_lt hw; omega
+    | succ f' =>
+      rw [chainEnd, padded_lookup]
+      simp only [hxs, if_false]
+      cases hfc : w.focusedChild with
+      | none => rw [hw.1, chainEnd_none hw hfc]; simp only [hfc]
+      | some c =>
+        rw [hw.1, chainEnd_some hw hfc]
+        simp only [hfc]
+        obtain ⟨cw, hcw, hcp, _⟩ := wf_focused h hw hfc
+        have := (wf_parent h hcw hcp).1
+        exact ih f' c cw hcw (by omega) (by omega)
+
+theorem winOk_padded {t : Tree} {j : Nat} {x : Win} (hj : t.wins[j]? = some x) (hf : x.freed = false)
+    (h : winOk t j x = true) (hwf : wfB t = true) : winOk (padded t) j x = true := by
+  have hxl : Live t j x := ⟨hj, hf⟩
+  apply winOk_intro
+  · intro q hq
+    obtain ⟨h1, h2, qw, hqw, hmem⟩ := wf_parent hwf hxl hq
+    exact ⟨h1, h2, qw, by rw [padded_lookup]; simp [Nat.ne_of_lt (live_lt hqw)]; exact hqw.1, hqw.2, hmem⟩
+  · intro c hc
+    obtain ⟨cw, hcw, hcp⟩ := wf_child hwf hxl hc
+    exact ⟨cw, by rw [padded_lookup]; simp [Nat.ne_of_lt (live_lt hcw)]; exact hcw.1, hcw.2, hcp⟩
+  · intro c hc
+    obtain ⟨cw, hcw, hcp, hcv⟩ := wf_focused hwf hxl hc
+    exact ⟨cw, by rw [padded_lookup]; simp [Nat.ne_of_lt (live_lt hcw)]; exact hcw.1, hcw.2, hcp, hcv⟩
+
+theorem wfB_padded {t : Tree} (hwf : wfB t = true) : wfB (padded t) = true := by
+  apply wfB_of
+  · obtain ⟨r, hr0, h1, h2, h3⟩ := wf_root' hwf
+    have : (0 : Nat) ≠ t.wins.size := fun h => by
+      have := (Array.getElem?_eq_some_iff.mp hr0).1; omega
+    exact ⟨r, by rw [padded_lookup]; simp [this]; exact hr0, h1, h2, h3⟩
+  · intro j x hx hf
+    rw [padded_lookup] at hx
+    by_cases hj : j = t.wins.size
+    · simp [hj] at hx; subst hx; simp at hf
+    · simp only [hj, if_false] at hx
+      exact winOk_padded hx hf (wf_winOk hwf hx hf) hwf
+
+theorem good15_padded {t : Tree} (hg : Good15 t) : Good15 (padded t) := by
+  have hlt_of : ∀ (c : Nat) (cw : Win), t.wins[c]? = some cw → c ≠ t.wins.size := fun c cw h =>
+    Nat.ne_of_lt (Array.getElem?_eq_some_iff.mp h).1
+  have back : ∀ (x : Nat) (wb : Win), (padded t).wins[x]? = some wb →
+      (x = t.wins.size ∧ wb = { freed := true }) ∨ t.wins[x]? = some wb := by
+    intro x wb hwb
+    rw [padded_lookup] at hwb
+    by_cases hx : x = t.wins.size
+    · simp [hx] at hwb; exact .inl ⟨hx, hwb.symm⟩
+    · simp only [hx, if_false] at hwb; exact .inr hwb
+  have fwd : ∀ (x : Nat) (w0 : Win), t.wins[x]? = some w0 → (padded t).wins[x]? = some w0 := by
+    intro x w0 hw0; rw [padded_lookup]; simp [hlt_of x w0 hw0]; exact hw0
+  exact { wf := wfB_padded hg.wf
+          wfp := ⟨fun cur wb hwb ch hch => by
+            rcases back cur wb hwb with ⟨_, rfl⟩ | hw0
+            · simp at hch
+            · obtain ⟨cw, hcw, a, b⟩ := hg.wfp.child cur wb hw0 ch hch
+              exact ⟨cw, fwd ch cw hcw, a, b⟩⟩
+          rootWin := by
+            obtain ⟨r, hr, a, b, c, d, e⟩ := hg.rootWin.ex
+            exact ⟨⟨r, fwd 0 r hr, a, b, c, d, e⟩⟩
+          onlyRoot := fun x wb hwb hr => by
+            rcases back x wb hwb with ⟨_, rfl⟩ | hw0
+            · simp at hr
+            · exact hg.onlyRoot x wb hw0 hr
+          nodup := fun cur wb hwb => by
+            rcases back cur wb hwb with ⟨_, rfl⟩ | hw0
+            · simp
+            · exact hg.nodup cur wb hw0
+          noSelf := fun x wb hwb => by
+            rcases back x wb hwb with ⟨_, rfl⟩ | hw0
+            · simp
+            · exact hg.noSelf x wb hw0
+          pos := fun x wb hwb hr => by
+            rcases back x wb hwb with ⟨_, rfl⟩ | hw0
+            · simp at hr
+            · exact hg.pos x wb hw0 hr
+          nonempty := hg.nonempty
+          flagged := hg.flagged
+          later := hg.later }
+
+theorem cursorSpec_padded {t : Tree} (hwf : wfB t = true) : cursorSpec (padded t) = cursorSpec t := by
+  obtain ⟨r, hr, _, _⟩ := wf_root hwf
+  have hce : chainEnd (padded t) (treeFuel (padded t)) 0 = chainEnd t (treeFuel t) 0 :=
+    chainEnd_padded hwf _ _ 0 r hr (by unfold treeFuel; rw [padded_size]; omega) (by unfold treeFuel; omega)
+  obtain ⟨ew, hew, _⟩ := chainEnd_live hwf (treeFuel t) 0 r (by unfold treeFuel; omega) hr (.refl 0)
+  have hne : chainEnd t (treeFuel t) 0 ≠ t.wins.size := Nat.ne_of_lt (live_lt hew)
+  apply cursorSpec_ext hwf (wfB_padded hwf)
+  intro L C s
+  unfold ShownAt
+  rw [hce, ownerAt_padded hwf]
+  constructor
+  · rintro ⟨w, hw, rest⟩
+    refine ⟨w, ?_, rest⟩
+    have := hw.1; rw [padded_lookup] at this; simp only [hne, if_false] at this
+    exact ⟨this, hw.2⟩
+  · rintro ⟨w, hw, rest⟩
+    refine ⟨w, ?_, rest⟩
+    exact ⟨by rw [padded_lookup]; simp only [hne, if_false]; exact hw.1, hw.2⟩
+
+theorem filter_inserted (cs : List Nat) (n : Nat) (low : Bool) (hn : n ∉ cs) :
+    (if low then cs ++ [n] else n :: cs).filter (fun x => decide (x ≠ n)) = cs.filter (fun x => decide (x ≠ n)) := by
+  cases low <;> simp
+
+/-- `tickit_window_new` keeps the invariants and requests what the property needs (fuel: one more than the size of the
+    store, so that it suffices for the store with the new window). -/
+theorem newWindow_step {t t' : Tree} {par0 : Nat} {rect0 : Rect} {rp hid low st : Bool} {id : Nat} (hg : Good15 t)
+    (h : newWindow t (treeFuel t + 1) par0 rect0 rp hid low st = .ok (t', id)) :
+    Good15 t' ∧ (Pending t' ∨ cursorSpec t' = cursorSpec t) := by
+  obtain ⟨_, par, rect, pw, tb, hpw, hl, hsz, hroot, hexp⟩ := newWindow_pieces h
+  have hplt := live_lt hpw
+  have hpn : par ≠ t.wins.size := Nat.ne_of_lt hplt
+  obtain ⟨b1, b2, b3, b4, b5, b6⟩ := struct_inserted hg.wfp hg.rootWin hg.onlyRoot hg.nodup hg.noSelf hg.pos hpw hl
+  have hwfb := wfB_inserted hg.wf hpw hl
+  have hln : tb.wins[t.wins.size]? = some (newWin par rect hid st) := by rw [hl]; unfold insertedStore; simp
+  have hlp : tb.wins[par]? = some { pw with children := if low then pw.children ++ [t.wins.size] else t.wins.size :: pw.children } := by
+    rw [hl]; unfold insertedStore; simp [hpn]
+  have hlo : ∀ i : Nat, i ≠ t.wins.size → i ≠ par → tb.wins[i]? = t.wins[i]? := by
+    intro i h1 h2; rw [hl]; unfold insertedStore; simp [h1, h2]
+  have hnotin : t.wins.size ∉ pw.children := by
+    intro hmem
+    obtain ⟨cw, hcw, _, _⟩ := hg.wfp.child par pw hpw.1 _ hmem
+    exact Nat.lt_irrefl _ (Array.getElem?_eq_some_iff.mp hcw).1
+  have hsbl : SameButL (padded t) tb par t.wins.size :=
+    { other := fun x hxp hxn => by rw [hlo x hxn hxp, padded_lookup]; simp [hxn]
+      parNone := fun hn => by rw [padded_lookup] at hn; simp [hpn, hpw.1] at hn
+      par := fun pw2 hpw2 => by
+        rw [padded_lookup] at hpw2; simp only [hpn, if_false] at hpw2
+        rw [hpw.1] at hpw2; cases hpw2
+        exact ⟨_, hlp, rfl, rfl, rfl, filter_inserted _ _ _ hnotin⟩
+      size := by rw [hsz, padded_size]
+      only := fun x w hxp hxn hw => by
+        rw [padded_lookup] at hw; simp only [hxn, if_false] at hw
+        intro hmem
+        obtain ⟨cw, hcw, _, _⟩ := hg.wfp.child x w hw _ hmem
+        exact Nat.lt_irrefl _ (Array.getElem?_eq_some_iff.mp hcw).1 }
+  have hsize0 : t.wins.size ≠ 0 := by
+    obtain ⟨r, hr, _⟩ := hg.rootWin.ex
+    have := (Array.getElem?_eq_some_iff.mp hr).1; omega
+  have hexp' : (if (!hid) = true then expose tb (tb.wins.size + 1) par (some rect) else pure tb) = .ok t' := by
+    have : treeFuel t + 1 = tb.wins.size + 1 := by unfold treeFuel; rw [hsz]
+    rw [← this]; exact hexp
+  obtain ⟨hinv, hwins, hne', hflags⟩ := list_change_step encCell (snapshot (padded t)) hsbl hpn hsize0 b1 b2
+    (fun x y hc => by
+      rcases hc with ⟨cw, hcw, _, hf, _⟩ | ⟨cw, hcw, hv, _, hm⟩
+      · rw [padded_lookup] at hcw; simp at hcw; subst hcw; simp at hf
+      · rw [hln] at hcw; cases hcw; exact ⟨hv, hm⟩)
+    (by rw [hroot]; rfl) hg.nonempty b6 hexp' (invC_snapshot (padded t))
+  have hroot' : t'.root = t.root ∨ (t'.root.needsExpose = true ∧ t'.root.needsLater = true) := by
+    rcases hflags with h | ⟨a, b, _⟩
+    · exact .inl h
+    · exact .inr ⟨a, b⟩
+  have hwf' : wfB t' = true := by rw [wfB_wins hwins]; exact hwfb
+  obtain ⟨c1, c2, c3, c4, c5, c6⟩ := struct_congr (t := tb) (t' := t') (fun x => by rw [hwins]) b1 b2 b3 b4 b5 b6
+  have hg' : Good15 t' :=
+    { wf := hwf', wfp := c1, rootWin := c2, onlyRoot := c3, nodup := c4, noSelf := c5, pos := c6, nonempty := hne'
+      flagged := by
+        rcases hroot' with h | ⟨a, _⟩
+        · rw [h]; exact hg.flagged
+        · exact fun _ => a
+      later := by
+        rcases hroot' with h | ⟨_, b⟩
+        · rw [h]; exact hg.later
+        · exact fun _ => b }
+  refine ⟨hg', ?_⟩
+  rw [← cursorSpec_padded hg.wf]
+  refine requests_of_step (good15_padded hg) hwf' hinv ?_ ?_ ?_
+  · rcases hroot' with h | h
+    · exact .inl ⟨by rw [h]; rfl, by rw [h]; rfl, by rw [h]; rfl⟩
+    · exact .inr h
+  · rw [hwins, padded_lookup]
+    simp only [Ne.symm hsize0, if_false]
+    by_cases h0p : (0 : Nat) = par
+    · subst h0p; rw [hlp, hpw.1]; rfl
+    · rw [hlo 0 (Ne.symm hsize0) h0p]
+  · refine ⟨by rw [hwins, hsz, padded_size], fun y wy _ hwy => ?_⟩
+    have hy := hwy.1
+    rw [padded_lookup] at hy
+    by_cases hys : y = t.wins.size
+    · simp [hys] at hy; subst hy; have := hwy.2; simp at this
+    · simp only [hys, if_false] at hy
+      by_cases hyp : y = par
+      · subst hyp
+        rw [hpw.1] at hy; cases hy
+        exact ⟨{ pw with children := if low then pw.children ++ [t.wins.size] else t.wins.size :: pw.children },
+          ⟨by rw [hwins]; exact hlp, hwy.2⟩, rfl, rfl, rfl⟩
+      · exact ⟨wy, ⟨by rw [hwins, hlo y hys hyp]; exact hy, hwy.2⟩, rfl, rfl, rfl⟩
+
 end WinFocus
 end Tickit
